@@ -514,6 +514,74 @@ func fanoutFamily(budget time.Duration) mc.Family {
 	}
 }
 
+// seacChainFamily: composites of composites.  The reader resolves seac glyphs in
+// glyph-name order, so a composite whose components are the composite before it
+// doubles the outline at every step; a font of a few kilobytes must not cost
+// more than a bounded amount of time and memory.
+func seacChainFamily(budget time.Duration) mc.Family {
+	lengths := []int{1, 2, 5, 12, 20, 24, 28, 40, 100, 255}
+	shapes := []string{"base and accent both the previous composite", "base the previous composite, accent the first glyph", "accent the previous composite, base the first glyph", "names in descending order (components resolved later)"}
+	return mc.Family{
+		Name: "seac-chains", Items: len(lengths) * len(shapes), Budget: budget, HangSeconds: 60,
+		Rule: fmt.Sprintf("a font whose glyph k is `0 500 hsbw 0 0 0 b a seac` with b, a naming glyph k-1 (or the first glyph, which has a three-segment outline) through a 256-entry Encoding array, chains of %v glyphs x %d shapes (2^255 path segments from under 8 KiB if every step doubles); through type1.Read; oracle as everywhere in C01: returns (a font or an error) within the watchdog and under the memory cap; non-trivial = all", lengths, len(shapes)),
+		Body: func(c *mc.Ctx, item int) mc.Verdict {
+			n := lengths[item%len(lengths)]
+			shape := item / len(lengths)
+			first := append(append(csNum(0), csNum(500)...), 13)
+			first = append(append(append(first, csNum(10)...), csNum(20)...), 21)
+			first = append(append(append(first, csNum(30)...), csNum(0)...), 5)
+			first = append(append(append(first, csNum(0)...), csNum(40)...), 5, 9, 14)
+			name := func(k int) string {
+				if shape == 3 {
+					return fmt.Sprintf("g%03d", 300-k)
+				}
+				return fmt.Sprintf("g%03d", k)
+			}
+			fs := fontSpec{encLenIV: 4, glyphs: map[string][]byte{".notdef": simpleGlyph, name(0): first}, order: []string{".notdef", name(0)}}
+			enc := "/Encoding 256 array 0 1 255 {1 index exch /.notdef put} for\n"
+			enc += fmt.Sprintf("dup 0 /%s put\n", name(0))
+			for k := 1; k <= n; k++ {
+				b, a := int32(k-1), int32(k-1)
+				switch shape {
+				case 1:
+					a = 0
+				case 2:
+					b = 0
+				}
+				cs := append(append(csNum(0), csNum(500)...), 13)
+				cs = append(append(append(cs, csNum(0)...), csNum(1)...), csNum(1)...)
+				cs = append(append(cs, csNum(b)...), csNum(a)...)
+				cs = append(cs, 12, 6)
+				fs.glyphs[name(k)] = cs
+				fs.order = append(fs.order, name(k))
+				if k < 256 {
+					enc += fmt.Sprintf("dup %d /%s put\n", k, name(k))
+				}
+			}
+			fs.top = enc + "def\n"
+			F, err := type1.Read(bytes.NewReader(buildFont(fs)))
+			c.Step()
+			out := "rejected"
+			segs := 0
+			if err == nil {
+				out = "accepted"
+				for _, g := range F.Glyphs {
+					segs += len(g.Cmds)
+				}
+			}
+			v := mc.Pass(out, true)
+			if c.Render() {
+				v.Render = fmt.Sprintf("chain of %d composites, %s → %v (%d path commands in the font)", n, shapes[shape], err, segs)
+			}
+			return v
+		},
+		Describe: func(item int) string {
+			return fmt.Sprintf("chain of %d composites, %s", lengths[item%len(lengths)], shapes[item/len(lengths)])
+		},
+		CrashKey: func(item int) string { return "C01:crash:seac-chains" },
+	}
+}
+
 // repeatFamily: one token repeated k times (after hsbw), optionally followed by
 // a second token: buffers sized for the well-formed case (24-entry operand
 // stack, 14 flex coordinates, 10 nested calls) must not be overrun.
@@ -901,6 +969,72 @@ func deepNestingFamily(tier string, budget time.Duration) mc.Family {
 	}
 }
 
+// multiplyFamily: operators that push as much as they find (copy with a count
+// taken from the stack, aload in a loop, a procedure that doubles what it was
+// given): the stack, a container or the work doubles with every handful of
+// operations, so a budget of a few hundred operations asks for 2^60 objects
+// unless the operand stack and size limits apply to what operators push.
+func multiplyFamily(budget time.Duration) mc.Family {
+	progs := []string{
+		"1 { count copy } loop",
+		"1 { count copy } bind loop",
+		"/f { count copy f } def 1 f",
+		"1 2 { count copy } loop",
+		"mark 1 { counttomark copy } loop",
+		"1 1 { 2 copy count copy } loop",
+		"[1 2] { aload aload } loop",
+		"[1 2] { aload dup length 2 mul array astore } loop",
+		"[ 1 { counttomark copy ] aload } loop",
+		"1 100 { count copy } repeat",
+		"0 1 100 { pop count copy } for",
+		"{ 1 } { dup 2 array astore cvx } loop",
+		"/d 1 dict def { d d length d put d d copy } loop",
+		"(ab) { dup length 2 mul string } loop",
+		"1 { count copy count copy } loop",
+		"errordict /stackoverflow { count copy } put 1 { count copy } loop",
+		"errordict /stackoverflow { pop pop count copy } put 1 { count copy } loop",
+	}
+	through := []string{"interpreter, budget 66", "interpreter, budget 1000", "interpreter, budget 3000000", "ReadCMap", "type1.Read"}
+	n := len(progs) * len(through)
+	return mc.Family{
+		Name: "multiplying-operators", Items: n, Budget: budget, HangSeconds: 60,
+		Rule: fmt.Sprintf("%d programs in which one operator pushes as much as is there already (count copy, counttomark copy, aload, astore of a doubled array, in loop / repeat / for / a self-calling procedure / an error handler) x {interpreter with budgets of 66, 1000 and 3,000,000 operations, ReadCMap, type1.Read}; oracle as everywhere in C01, and with a budget the operand stack afterwards holds at most 1010 objects (the limit of 500 plus what one operator may add to a full stack); non-trivial = all", len(progs)),
+		Body: func(c *mc.Ctx, item int) mc.Verdict {
+			prog := progs[item%len(progs)]
+			how := item / len(progs)
+			var err error
+			depth := 0
+			switch how {
+			case 0, 1, 2:
+				intp := postscript.NewInterpreter()
+				intp.MaxOps = []int{66, 1000, 3000000}[how]
+				err = intp.ExecuteString(prog)
+				depth = len(intp.Stack)
+			case 3:
+				_, err = postscript.ReadCMap(strings.NewReader("%!PS-Adobe-3.0 Resource-CMap\n" + prog))
+			case 4:
+				_, err = type1.Read(strings.NewReader("%!PS-AdobeFont-1.0: T 1\n" + prog))
+			}
+			c.Step()
+			if depth > 1010 {
+				v := mc.Fail("C01:operand-stack-unbounded", fmt.Sprintf("program `%s` through %s: %d objects on the operand stack afterwards (limit 500) → %v", prog, through[how], depth, err))
+				v.Render = prog
+				return v
+			}
+			out := errClass(err)
+			v := mc.Pass(out, true)
+			if c.Render() {
+				v.Render = fmt.Sprintf("%s through %s → %s", prog, through[how], out)
+			}
+			return v
+		},
+		Describe: func(item int) string {
+			return fmt.Sprintf("%s through %s", progs[item%len(progs)], through[item/len(progs)])
+		},
+		CrashKey: func(item int) string { return "C01:crash:multiplying-operators" },
+	}
+}
+
 // aliasFamily: names whose value is an executable name (taken out of a
 // procedure body), bound in cycles of length 1..4 and executed in every
 // context: each round of such a chain is an operation like any other.
@@ -1047,6 +1181,7 @@ func main() {
 				charstringFamily(csLen, budget),
 				repeatFamily(budget),
 				fanoutFamily(budget),
+				seacChainFamily(budget),
 				mc.Family{
 					Name: "font-knobs", Items: len(knobs), Budget: budget,
 					Rule: "type1.Read on generated fonts: /lenIV from 17 values (min int, -2^40, -1, 0..7, 65536, 2^31, 2^62, max int, real, string, name, boolean) x charstrings of 0..9 bytes; missing FontInfo/Private/CharStrings/FontType; every dictionary entry the reader looks at (9 top-level, 10 Private, 9 FontInfo) set to each of 14 wrongly typed values; odd Encoding arrays; seac with hostile component codes x 7 encodings (incl. composites that name themselves or each other as base or accent next to a glyph with an outline); the font directory filled through put / defineresource / definefont / def with 20 kinds of non-font values; no font; two fonts; non-trivial = every case",
@@ -1078,6 +1213,7 @@ func main() {
 				cmapFamily(budget),
 				deepNestingFamily(tier, budget),
 				aliasFamily(budget),
+				multiplyFamily(budget),
 			)
 			return fams
 		},
